@@ -47,7 +47,7 @@ BUDGET_S = {"quick": 75, "thorough": 800}
 
 def plan(tier):
     if tier == "quick":
-        return [{"n": 220, "i": i} for i in range(15)] + [{"flips": True, "sessions": 1}]
+        return [{"n": 170, "i": i} for i in range(15)] + [{"flips": True, "sessions": 1}]
     return [{"n": 12000, "i": i} for i in range(15)] + [{"flips": True, "sessions": 3}]
 
 
@@ -67,8 +67,8 @@ attack = st.one_of(
         "other-session", "wrong-pin", "other-type", "sig-reencode", "empty-sig", "payload-extra"])}),
     st.fixed_dictionaries({"cls": st.just("challenge"), "kind": st.sampled_from([
         "wrong-token-right-key", "right-token-wrong-key", "crc-plaintext", "other-address", "token-plus-one", "garbage-under-key",
-        "token-bit-flip", "token-bit-flip", "token-offset"]), "bit": st.integers(0, 63), "off": st.sampled_from([2 ** 31, -2 ** 31, 2 ** 32, -2 ** 32, 2 ** 30, 2 ** 63 - 2 ** 31])}),
-    st.fixed_dictionaries({"cls": st.just("late-hello"), "kind": st.sampled_from(["other-session", "own", "attacker-signed", "own-bytes-flipped"]),
+        "token-bit-flip", "token-bit-flip", "token-offset", "other-pending-token", "other-pending-token"]), "bit": st.integers(0, 63), "off": st.sampled_from([2 ** 31, -2 ** 31, 2 ** 32, -2 ** 32, 2 ** 30, 2 ** 63 - 2 ** 31])}),
+    st.fixed_dictionaries({"cls": st.just("late-hello"), "kind": st.sampled_from(["other-session", "own", "attacker-signed", "own-bytes-flipped", "client-hello-to-server", "client-hello-to-server"]),
                            "seq_ahead": st.sampled_from([1, 5, 40, 300]), "msg_ahead": st.sampled_from([1, 40, 300, 2000])}),
     st.fixed_dictionaries({"cls": st.just("schedule"), "ops": st.lists(st.tuples(st.sampled_from([1, 2, 3]), st.sampled_from(
         ["drop", "dup-now", "dup-late", "dup-very-late", "delay"])).map(list), min_size=1, max_size=3)}),
@@ -283,6 +283,13 @@ class Mitm(object):
             d = W.build_datagram(True, h.ctime, h.seq, h.ack, h.ack_bits, W.T_CHALLENGE, [(2, W.T_CHALLENGE, m.dumpb())], key=None)
         elif kind == "garbage-under-key":
             d = W.build_datagram(True, h.ctime, h.seq, h.ack, h.ack_bits, W.T_CHALLENGE, [(2, W.T_CHALLENGE, self.ent.bytes(9))], key=key)
+        elif kind == "other-pending-token":
+            # a token the server issued to ANOTHER connection whose handshake is pending (tokens travel in clear)
+            others = [cc.token for aa, cc in w.ctxt.temp_connections.items() if aa != self.ch.laddr]
+            if not others:
+                return [0.002]
+            m.token = others[0]
+            d = W.build_datagram(True, h.ctime, h.seq, h.ack, h.ack_bits, W.T_CHALLENGE, [(2, W.T_CHALLENGE, m.dumpb())], key=key)
         elif kind == "other-address":
             d = em.data
             src = ("10.7.7.7", 7777)
@@ -349,6 +356,14 @@ def body(ctx, c, stats=None):
         pinned.verify = counting_verify
         ch = w.add_client(server_public_key=pinned)
         mitm = Mitm(w, ch, c, atk_ent, other_hello)
+        if a["cls"] == "challenge" and a.get("kind") == "other-pending-token":
+            # a third party whose handshake stays pending (its challenge response is lost)
+            third = w.add_client(laddr=("10.0.2.7", 4555))
+            w.net.policy = lambda em: [] if (em.src == third.laddr and W.parse_header(em.data).type == W.T_CHALLENGE) else [0.002]
+            third.connect()
+            for _ in range(6):
+                w.step(0.02)
+            third.alive = False
         w.net.policy = mitm
         connect_events = []
         w.on_event.append(lambda e: connect_events.append(e) if e["ev"] == "connect" and e["addr"] == ch.laddr else None)
@@ -405,7 +420,9 @@ def body(ctx, c, stats=None):
             if g is not None:
                 p = W.parse_datagram(g, None)
                 own = p.msgs[0][2]
-                if a["kind"] == "other-session":
+                if a["kind"] == "client-hello-to-server":
+                    msg = None
+                elif a["kind"] == "other-session":
                     otid, oroot, opayload, osig = split_hello(other_hello)
                     msg = join_hello(otid, oroot, opayload, osig)
                 elif a["kind"] == "own":
@@ -417,21 +434,54 @@ def body(ctx, c, stats=None):
                     pub_, salt_, token_ = split_payload(payload_)
                     pl = ser(mitm.atk_eph.getPublicKey().getBytes()) + ser(salt_) + ser(token_)
                     msg = join_hello(tid, mitm.atk_root.getPublicKey().getBytes(), pl, mitm.atk_root.sign(pl))
-                cur = int(ch.conn.bitfield_pkt.current_seqnum)
-                mcur = int(ch.conn.bitfield_msg.current_seqnum)
-                seq = (cur - 1 + a["seq_ahead"]) % 65535 + 1
-                mseq = (mcur - 1 + a["msg_ahead"]) % 65535 + 1
-                d = W.build_datagram(False, int(w.clock.t), seq, 0, 0, W.T_SERVER_HELLO, [(mseq, W.T_SERVER_HELLO, msg)])
-                w.net.push(w.clock.t + 0.001, ch.laddr, w.server_addr, d)
+                if msg is None:
+                    # towards the SERVER: a fresh clear CLIENT_HELLO (attacker's ephemeral key) from the client's address
+                    scn = w.ctxt.connections.get(ch.laddr)
+                    skey_before = (scn.session_key_bytes, scn.token)
+                    hm = HandshakeClientHelloMessage()
+                    hm.client_pubkey = mitm.atk_eph.getPublicKey()
+                    hm.client_version = 1
+                    cur = int(scn.bitfield_pkt.current_seqnum)
+                    mcur = int(scn.bitfield_msg.current_seqnum)
+                    seq = (cur - 1 + a["seq_ahead"]) % 65535 + 1
+                    mseq = (mcur - 1 + a["msg_ahead"]) % 65535 + 1
+                    d = W.build_datagram(True, int(w.clock.t), seq, 0, 0, W.T_CLIENT_HELLO, [(mseq, W.T_CLIENT_HELLO, hm.dumpb())])
+                    w.net.push(w.clock.t + 0.001, w.server_addr, ch.laddr, d)
+                else:
+                    cur = int(ch.conn.bitfield_pkt.current_seqnum)
+                    mcur = int(ch.conn.bitfield_msg.current_seqnum)
+                    seq = (cur - 1 + a["seq_ahead"]) % 65535 + 1
+                    mseq = (mcur - 1 + a["msg_ahead"]) % 65535 + 1
+                    d = W.build_datagram(False, int(w.clock.t), seq, 0, 0, W.T_SERVER_HELLO, [(mseq, W.T_SERVER_HELLO, msg)])
+                    w.net.push(w.clock.t + 0.001, ch.laddr, w.server_addr, d)
                 mitm.classes.add("late-hello-" + a["kind"])
                 for _ in range(10):
                     w.step(0.02)
                     check_step()
+                if msg is None:
+                    scn2 = w.ctxt.connections.get(ch.laddr)
+                    if scn2 is None or (scn2.session_key_bytes, scn2.token) != skey_before:
+                        ctx.violation("late-hello-rekeyed-server", "attack %r: the established server-side connection replaced its key/token on a clear CLIENT_HELLO" % (a,))
                 if ch.conn is not None and (ch.conn.session_key_bytes, ch.conn.token) != key_before:
                     ctx.violation("late-hello-rekeyed-client", "attack %r: an established client replaced its key/token on a clear SERVER_HELLO" % (a,))
         for _ in range(70):
             w.step(0.02)
             check_step()
+        if a["cls"] in ("hello", "bytes") and mitm.edited_hello is not None and len(mitm.edited_hello) >= 64 and ch.conn is not None and not ch.connected() and c["seed"] % 2 == 0:
+            # aftermath: long after the client refused the edited hello (past its 5 s liveness horizon) further
+            # unauthenticated datagrams arrive: it must stay unconnected with no key
+            for _ in range(int(5.6 / 0.04)):
+                w.step(0.04)
+            g = bytearray(mitm.edited_hello)
+            f_ = list(W.HDR.unpack(bytes(g[:20])))
+            for k_, extra_seq in enumerate((7, 8)):
+                f_[2] = (f_[2] + extra_seq) % 65535 + 1
+                body = bytes(g[20:-4]) if k_ == 0 else bytes(g[20:60])
+                w.net.push(w.clock.t + 0.001, ch.laddr, w.server_addr, crc_datagram(W.HDR.pack(*f_), body))
+                for _ in range(12):
+                    w.step(0.04)
+                    check_step()
+            mitm.classes.add("aftermath")
         sc = w.ctxt.connections.get(ch.laddr)
         if a["cls"] == "late-hello":
             if not ch.connected() or sc is None or ch.conn.session_key_bytes != sc.session_key_bytes:
